@@ -237,6 +237,7 @@ class ContainerModel(amod.AssignModel):
         self._attach(left, it)
         self._attach(right, it)
         fn = self.method_defs[(left._kind, "can_assign")]
+        self.last_used_any = False
         try:
             res = it.call_def(fn, [left, right, ctx], fn)
         except Unsupported as u:
@@ -245,6 +246,7 @@ class ContainerModel(amod.AssignModel):
             return ("crash", f"assertion {af}")
         except (PyRaise, ModelError) as e:
             return ("crash", str(e))
+        self.last_used_any = bool(used_any)  # whether the checker was told that the acceptance rests on Any
         return not (isinstance(res, Obj) and res._kind == "CanAssignError")
 
     # ------------------------------------------------------ type specifications
@@ -419,12 +421,14 @@ TD_OBJECTS: Tuple[Any, ...] = tuple(
     + [{k: v} for k in ("a", "b", "c") for v in (1, "x")]
     + [{k1: v1, k2: v2} for k1, k2 in (("a", "b"), ("a", "c"), ("b", "c")) for v1 in (1, "x") for v2 in (1, "x")]
     + [{1: "x"}, {"a": 1, "b": 1, "c": "x"}]
+    + [{"a": None}, {"a": 1, "b": None}, {"a": None, "b": 1}]  # a key that is present with the value None is present
 )
 
 
 def typeddict_specs(wide: bool = False) -> Iterator[Any]:
     INT, STR = ("cls", int), ("cls", str)
-    a_opts: List[Any] = [None] + [("a", t, req, ro) for t in (INT, STR) for req in (True, False) for ro in (False, True)]
+    OPT = ("union", (INT, ("cls", type(None))))
+    a_opts: List[Any] = [None] + [("a", t, req, ro) for t in (INT, STR) for req in (True, False) for ro in (False, True)] + [("a", OPT, True, False), ("a", OPT, False, False)]
     b_opts: List[Any] = [None, ("b", INT, True, False), ("b", INT, False, False), ("b", INT, False, True)] + ([("b", STR, True, True)] if wide else [])
     extras = [("open", False), ("closed", False), (INT, False), (INT, True), (STR, True)]
     for a in a_opts:
